@@ -27,7 +27,7 @@ ANCHORS = ["prov.model:ProvDocument.serialize", "prov.model:ProvDocument.deseria
            "prov.serializers.provn:ProvNSerializer.serialize", "prov.serializers:Registry.load_serializers", "prov.serializers:get"]
 DESTS = ["string", "text_stream", "binary_stream", "path"]
 PATH_NAMES = ["out-été.%s", "a#b.%s", "x?y=1.%s", "semi;colon.%s", "with space.%s", "c:d.%s", "plain.%s"]
-SOURCES = ["content_str", "content_bytes", "text_stream", "binary_stream", "path"]
+SOURCES = ["content_str", "content_bytes", "text_stream", "binary_stream", "path", "text_file_other_encoding"]
 
 
 def plan(tier, seed):
@@ -99,6 +99,21 @@ def read_source(kind, data, fmt, box, n):
         return pm.ProvDocument.deserialize(io.StringIO(text), format=fmt)
     if kind == "binary_stream":
         return pm.ProvDocument.deserialize(io.BytesIO(text.encode("utf-8")), format=fmt)
+    if kind == "text_file_other_encoding":
+        # a text stream is text whatever encoding its file uses: written and re-opened with a non-UTF-8 codec
+        enc = "utf-16"
+        for cand in ("latin-1", "cp1252"):
+            try:
+                text.encode(cand)
+                enc = cand
+                break
+            except UnicodeEncodeError:
+                pass
+        p = os.path.join(box, "enc%d.%s" % (n, fmt))
+        with open(p, "w", encoding=enc, newline="") as f:
+            f.write(text)
+        with open(p, "r", encoding=enc, newline="") as f:
+            return pm.ProvDocument.deserialize(f, format=fmt)
     p = os.path.join(box, PATH_NAMES[n % len(PATH_NAMES)] % ("%d.%s" % (n, fmt)))
     with open(p, "wb") as f:
         f.write(data if isinstance(data, bytes) else data.encode("utf-8"))
